@@ -233,11 +233,13 @@ def check(ctx):
         if rt is not None:
             if rt[0] == "op" and rt[1] == "|" and rt[2] == ms_p and rt[3] == pos_p:
                 fresh = True
+            if rt == ("dict", ((("star2",), ms_p), (("star2",), pos_p))):
+                fresh = True
             if rt[0] == "call" and rt[1] == ("a", ms_p, "_replace"):
                 fresh = True
             base = rt
-            while base[0] in ("loop", "carried", "phi"):
-                base = base[2]
+            while base[0] in ("loop", "carried", "phi", "mut"):
+                base = base[2] if base[0] != "mut" else base[1]
             if is_call(base, "copy.copy", "copy.deepcopy") and base[2] == (ms_p,):
                 fresh = True
             if base[0] == "call" and base[1] == ("a", ms_p, "copy"):
@@ -285,6 +287,70 @@ def check(ctx):
              and isinstance(x.value, str) and x.value.startswith("_model_")}
     ctx.ob("C03.R4", gb, "the builder names the log-probability node '_model_log_prob'",
            names == {"_model_log_prob"}, detail=str(names))
+
+    # ------------------------------------------------------------------ R6 plain containers
+    ctx.rule("R6", "dict / dataclass / named-tuple interfaces: extract reads exactly the "
+                   "requested keys from the given state; update returns a NEW state equal to "
+                   "the input with exactly the position's entries replaced and never writes "
+                   "the input; log_prob is the user's function of the given state.")
+    MS_, POS_, KEYS_ = n("model_state"), n("position"), n("position_keys")
+    each_key = ("iter", KEYS_)
+
+    def strip_position(t):
+        return t[2][0] if t is not None and is_call(t, "liesel.goose.types.Position") \
+            and len(t[2]) == 1 else t
+    n_simple = 0
+    for cname, read in (("DictInterface", ("s", MS_, each_key)),
+                        ("DataclassInterface", ("call", n("getattr"), (MS_, each_key), ())),
+                        ("NamedTupleInterface", ("call", n("getattr"), (MS_, each_key), ()))):
+        ci = repo.cls(f"liesel.goose.interface.{cname}")
+        n_simple += 1
+        ex = method(repo, ci, "extract_position", own=True)
+        rt_e = strip_position(evaluate(repo, ex).ret())
+        ok_e = (rt_e is not None and rt_e[0] == "comp" and rt_e[1] == "dict"
+                and rt_e[2] == (each_key, read) and len(rt_e[3]) == 1
+                and rt_e[3][0][1] == KEYS_ and not rt_e[3][0][2])
+        ctx.ob("C03.R6", ex, f"{cname}.extract_position = {{key: state's entry for key, for "
+                             f"every requested key}}", ok_e, detail=short(rt_e or (), 160),
+               stmt=f"{cname} extract")
+        up = method(repo, ci, "update_state", own=True)
+        ru = evaluate(repo, up)
+        rt_u = ru.ret()
+        writes_in = [loc for loc, _, _, _ in ru.stores if MS_ in set(subterms(loc))] + [
+            t for t, _, _ in ru.calls if t[0] == "call" and (
+                (t[1] == n("setattr") and t[2][:1] == (MS_,))
+                or (t[1][0] == "a" and t[1][1] == MS_ and t[1][2] in (
+                    "update", "__setitem__", "pop", "clear", "setdefault", "__setattr__")))]
+        if cname == "DictInterface":
+            fresh_ms = (("call", ("a", MS_, "copy"), (), ()), ("call", n("dict"), (MS_,), ()),
+                        ("call", ("g", "copy.copy"), (MS_,), ()))
+            ok_u = rt_u in (("op", "|", MS_, POS_),
+                            ("dict", ((("star2",), MS_), (("star2",), POS_)))) or (
+                rt_u is not None and rt_u[0] == "mut" and rt_u[1] in fresh_ms
+                and rt_u[2] == "update" and rt_u[3] == (POS_,) and not rt_u[4])
+        elif cname == "NamedTupleInterface":
+            ok_u = rt_u == ("call", ("a", MS_, "_replace"), (), (("**", POS_),))
+        else:
+            cp = ("call", ("g", "copy.copy"), (MS_,), ())
+            item = ("iter", ("call", ("a", POS_, "items"), (), ()))
+            sets = [(t, cond) for t, _, cond in ru.calls if t[0] == "call" and t[1] == n("setattr")]
+            want = ("call", n("setattr"), (cp, ("proj", item, 0), ("proj", item, 1)), ())
+            has = ("call", n("hasattr"), (cp, ("proj", item, 0)), ())
+            ok_u = (rt_u == cp and len(sets) == 1 and sets[0][0] == want
+                    and all(a[0] == "inloop" or (a == has and pol) for a, pol in sets[0][1])
+                    and all(any(a == has and not pol for a, pol in rc) for rc, _, _ in ru.raises))
+        ctx.ob("C03.R6", up, f"{cname}.update_state returns a new state: the input with "
+                             f"exactly the position's entries replaced (position wins)", ok_u,
+               detail=short(rt_u or (), 160), stmt=f"{cname} update")
+        ctx.ob("C03.R6", up, f"{cname}.update_state never writes its input state",
+               not writes_in, detail="; ".join(short(w, 60) for w in writes_in[:2]),
+               stmt=f"{cname} writes input")
+        lp_ = method(repo, ci, "log_prob", own=True)
+        ctx.ob("C03.R6", lp_, f"{cname}.log_prob = the user's function applied to the given "
+                              f"state", evaluate(repo, lp_).ret() == (
+                                  "call", ("a", SELF, "_log_prob_fn"), (MS_,), ()),
+               stmt=f"{cname} log_prob")
+    ctx.require_min("plain-container interfaces", n_simple, 3)
 
     # ---- shared mechanisms: the neighbour's rules run as obligations of this property
     ctx.include("C01", "C03.R5", only=None)
